@@ -5,6 +5,7 @@ import Gotree.Spec.C16Index
 import Gotree.Spec.C16Cli
 import Gotree.Spec.C16Extra
 import Gotree.Spec.C16Doc
+import Gotree.Spec.C16Depth
 
 namespace Gotree.Driver.C16
 open Gotree Gotree.Driver Gotree.C16
@@ -98,6 +99,11 @@ def handleGen (f : List String) : Verdict :=
           let idxObs : Option (Option IdxObs) := match idxRest with
             | [] => some none
             | [rawS, nleftS, hcS, tdS, tiS] => (parseIdxObs rawS nleftS nrightS hcS tdS tiS).map some
+            | [rawS, nleftS, hcS, tdS, tiS, _] => (parseIdxObs rawS nleftS nrightS hcS tdS tiS).map some
+            | _ => none
+          -- Node.Depth() of every node (last field; absent on older lines)
+          let depthObs : Option (List Int) := match idxRest with
+            | [_, _, _, _, _, dS] => parseIntList dS
             | _ => none
           match T.undump dump, parseStrList tipsS, parseBool rflag, parseStrList probesS, parseNatList nrightS, idxObs with
           | some t, some tips, some rf, some probes, some nright, some iob =>
@@ -115,17 +121,22 @@ def handleGen (f : List String) : Verdict :=
             else if !flagsOK then ⟨.oracle, tags, "Tips()/Rooted() disagree with the tree"⟩
             else if !exOK then ⟨.oracle, tags, "index not ready: ExistsTip answers are wrong"⟩
             else if !bOK then ⟨.oracle, tags, "index not ready: bitsets / taxon counts do not describe the tree"⟩
+            else if !(match depthObs with | some ds => depthsOK t ds | none => true) then
+              ⟨.oracle, tags, "index not ready: Node.Depth() is not the number of branches to the closest tip (below the node when rooted): " ++
+                toString (depthObs.getD []) ++ " instead of " ++ toString (depthsOf t)⟩
             else if !(match iob with | some ob => indexOK t tips ob | none => true) then
               ⟨.oracle, tags, "index not ready: a branch record (bitset, taxon counts, TopoDepth) or a TipIndex is not what the split prescribes (C04.branchOK)"⟩
             else
               match m with
               | .ok o =>
                 let exact := (eraseIds o.t).dump == (eraseIds t).dump
-                let tags := tags ++ tagIf exact "exact" ++ tagIf (lensEq o.t t) "lens-exact" ++ tagIf iob.isSome "index-records"
+                let tags := tags ++ tagIf exact "exact" ++ tagIf (lensEq o.t t) "lens-exact" ++ tagIf iob.isSome "index-records" ++ tagIf depthObs.isSome "node-depths"
                 if sync != "ok" then ⟨.tie, tags, "draw protocol: the code did not consume the scripted draws"⟩
                 else if !scriptOK then ⟨.tie, tags, "draw protocol: the harness script is not the model's"⟩
                 else if !obsEq o.t t then ⟨.tie, tags, "model tree " ++ o.t.dump⟩
                 else if !indexReady o then ⟨.tie, tags, "model index not ready"⟩
+                else if exact && !(match depthObs with | some ds => depthsOK o.t ds | none => true) then
+                  ⟨.tie, tags, "node depths differ from the model's"⟩
                 else if !(match iob with | some ob => indexTie C04.fnv1a o t ob | none => true) then
                   ⟨.tie, tags, "index records (bitset, counts, HashCode) differ from C04's ReinitIndexes on the model's tree"⟩
                 else ⟨.pass, tags, ""⟩
